@@ -108,6 +108,10 @@ class LoadProgram:
     duplicate_cols: List[str] = field(default_factory=list)
     source_columns: List[str] = field(default_factory=list)
     error: Optional[BaseException] = None       # exception raised by the real loader while building the program
+    # row-level steps AFTER the insert, in the order the loader executed them:
+    #   ("update", column, expression, where) | ("temporal", [case expressions])
+    steps: List[Tuple[Any, ...]] = field(default_factory=list)
+    unknown_statements: List[str] = field(default_factory=list)   # executed statements no rule above recognises
 
 
 def _parse(sql: str) -> exp.Expression:
@@ -143,6 +147,7 @@ def _analyse(kind: str, table: str, stmts: List[str]) -> LoadProgram:
             for a in e.expressions:
                 w = e.args.get("where")
                 prog.updates.append((a.this.name, a.expression, w.this if w is not None else None))
+                prog.steps.append(("update", a.this.name, a.expression, w.this if w is not None else None))
         elif "COUNT(DISTINCT" in up:
             prog.has_duplicate_check = True
             m = re.search(r"COUNT\(DISTINCT \((.*?)\)\) FROM", s)
@@ -153,6 +158,9 @@ def _analyse(kind: str, table: str, stmts: List[str]) -> LoadProgram:
             e = _parse(s)
             co = e.expressions[0].this
             prog.temporal_cases = [co.this] + list(co.expressions) if isinstance(co, exp.Coalesce) else [co]
+            prog.steps.append(("temporal", list(prog.temporal_cases)))
+        elif not (up.startswith("DESCRIBE") or up.startswith("DROP TABLE") or "READ_PARQUET(" in up and "LIMIT 0" in up):
+            prog.unknown_statements.append(s[:200])
     return prog
 
 
@@ -396,23 +404,29 @@ def run_row(eng: SqlEngine, prog: LoadProgram, row: Dict[str, SV]) -> RowOutcome
                 v = stored[col]
                 if v.sort == "null" or eng.decide(v.null):
                     return RowOutcome(False, stored, f"NOT NULL constraint on {col}")
-        for col, e, w in prog.updates:
+        if prog.unknown_statements:
+            raise SqlOutside(f"the loader executes a statement this interpreter does not know: {prog.unknown_statements[0]}")
+        # the steps after the INSERT, in the order the loader executed them (normalisation before or after a check matters)
+        last = max((i for i, s in enumerate(prog.steps) if s[0] == "temporal"), default=-1)
+        for i, step in enumerate(prog.steps):
             senv = {k.lower(): v for k, v in stored.items()}
-            if w is None or eng.decide(eng.truth(eng.as_bool(eng.eval(w, senv)))):
-                stored[col] = eng.eval(e, senv)
-                if prog.not_null.get(col) and (stored[col].sort == "null" or eng.decide(stored[col].null)):
-                    return RowOutcome(False, stored, f"NOT NULL constraint on {col} (UPDATE)")
-        senv = {k.lower(): v for k, v in stored.items()}
-        if hasattr(eng, "lazy_prune"):
-            eng.lazy_prune = eng.pruner is not None
-        for c in prog.temporal_cases:
-            r = eng.eval(c, senv)
-            if r.sort == "null":
+            if step[0] == "update":
+                _k, col, e, w = step
+                if w is None or eng.decide(eng.truth(eng.as_bool(eng.eval(w, senv)))):
+                    stored[col] = eng.eval(e, senv)
+                    if prog.not_null.get(col) and (stored[col].sort == "null" or eng.decide(stored[col].null)):
+                        return RowOutcome(False, stored, f"NOT NULL constraint on {col} (UPDATE)")
                 continue
-            if not eng.decide(r.null):
-                if r.sort == "str" and len(r.v) == 0:
+            if hasattr(eng, "lazy_prune") and i == last and i == len(prog.steps) - 1:
+                eng.lazy_prune = eng.pruner is not None
+            for c in step[1]:
+                r = eng.eval(c, senv)
+                if r.sort == "null":
                     continue
-                return RowOutcome(False, stored, "temporal format check")
+                if not eng.decide(r.null):
+                    if r.sort == "str" and len(r.v) == 0:
+                        continue
+                    return RowOutcome(False, stored, "temporal format check")
     except SqlError as e:
         return RowOutcome(False, stored, f"DuckDB error: {str(e.msg)[:80]} [{e.kind}]")
     return RowOutcome(True, stored)
